@@ -1,6 +1,7 @@
 /- helper lemmas for Props/C17.lean -/
 import RbModel.Morx
 import RbModel.Spec.Aat
+import RbModel.Lemmas.BufZipper
 
 namespace RbModel.Morx
 
@@ -525,8 +526,22 @@ theorem ctl_fields {b b' : Buf} (h : b'.ctl = b.ctl) :
 /-- the linear budget of an in-place subtable -/
 def mu (b : Buf) : Nat := (b.len - b.idx) + b.maxOps.toNat
 
+theorem ofInfo_toInfo (g : G) : ofInfo (toInfo g) = g := rfl
+
+theorem roundtrip (a : Array G) : ((a.toList.map toInfo).map ofInfo).toArray = a := by
+  simp [List.map_map, Function.comp_def, ofInfo_toInfo]
+
+/-- reading back the embedding with some control fields changed -/
+theorem comp_id : (ofInfo ∘ toInfo) = id := by funext g; rfl
+
+theorem ofS_toS (b : Buf) (i : Nat) : ofS b { toS b with idx := i } = { b with idx := i } := by
+  simp [ofS, toS, comp_id]
+
 theorem nextGlyph_inplace {b : Buf} (h : b.haveOutput = false) : nextGlyph b = .ok { b with idx := b.idx + 1 } := by
-  simp [nextGlyph, h]; rfl
+  have hs : (toS b).haveOutput = false := h
+  have e : (toS b).nextGlyph = .ok { toS b with idx := b.idx + 1 } := by
+    simp [RbModel.Buf.nextGlyph, hs, pure, Except.pure]; rfl
+  simp only [nextGlyph, viaS, e, liftS, ofS_toS]
 
 theorem advance_inplace {b b2 : Buf} {ca : Bool} (ho : b.haveOutput = false) (hs : b.successful = true)
     (hlt : b.idx < b.len) (h : advance ca b = .ok b2) :
@@ -785,7 +800,7 @@ theorem subtableRuns_single (s : Subtable) (r : Range) (b : Buf) :
 
 /-! ### non-contextual -/
 
-theorem rangeBlock_none (rf : Array Range) (sf : Nat) (b : Buf) : rangeBlock rf sf b none = .ok (false, none) := rfl
+theorem rangeBlock_none (rf : Array Range) (sf : Nat) (b : Buf) (i : Nat) : ncRange rf sf b i none = .ok (false, none) := rfl
 
 theorem nc_loop (lk : Lookup) (rf : Array Range) (sf : Nat) (b : Buf) :
     ∀ n, n ≤ b.info.size → ∃ info', forUp n (ncStep lk rf sf) (b, none) = .ok ({ b with info := info' }, none) ∧
@@ -1367,5 +1382,546 @@ theorem rearrTransition_level2 (v : Nat) (hv : v < 16) (hv0 : v ≠ 0) (σ : Asg
   rw [mergeClusters_level2 b _ _ hlvl, ok_bind, mergeClusters_level2 b _ _ hlvl, ok_bind, hs, he, hinfo, hcore]
   rfl
 
+/-- the compiled ranges of a chain tile the clusters [0, hi]: what `hb_aat_map_builder_t::compile` produces -/
+structure Tiles (rf : Array Range) (hi : Nat) : Prop where
+  nonempty : 0 < rf.size
+  first0 : ∀ r : Range, rf[0]? = some r → r.first = 0
+  ordered : ∀ (k : Nat) (r : Range), rf[k]? = some r → r.first ≤ r.last
+  contiguous : ∀ (k : Nat) (r r' : Range), rf[k]? = some r → rf[k + 1]? = some r' → r'.first = r.last + 1
+  lastHi : ∀ r : Range, rf[rf.size - 1]? = some r → r.last = hi
+
+theorem rdR_ok {rf : Array Range} {k : Nat} (h : k < rf.size) : rdR rf k = .ok rf[k] := by
+  simp [rdR, h]; rfl
+
+/-- `rangeDown` ends on a range that starts at or before the cluster, at or before where it started; if it
+    moved at all, the cluster lies before the next range. -/
+theorem rangeDown_spec {rf : Array Range} {hi : Nat} (ht : Tiles rf hi) (c : Nat) :
+    ∀ (fuel range : Nat), range ≤ fuel → range < rf.size →
+      ∃ k, rangeDown rf c fuel range = .ok k ∧ k ≤ range ∧ (∀ r, rf[k]? = some r → r.first ≤ c) ∧
+        (k < range → ∀ r, rf[k + 1]? = some r → c < r.first) := by
+  intro fuel
+  induction fuel with
+  | zero =>
+    intro range hr hs
+    have : range = 0 := by omega
+    subst this
+    have h0 := ht.first0 rf[0] (by simp [hs])
+    refine ⟨0, ?_, Nat.le_refl _, ?_, by omega⟩
+    · simp [rangeDown, rdR_ok hs, bind, Except.bind, h0, pure, Except.pure]
+    · intro r hr; have := ht.first0 r hr; omega
+  | succ fuel ih =>
+    intro range hr hs
+    simp only [rangeDown, rdR_ok hs, bind, Except.bind]
+    by_cases hc : c < rf[range].first
+    · simp only [hc, if_true]
+      by_cases h0 : range = 0
+      · subst h0
+        have := ht.first0 rf[0] (by simp [hs]); omega
+      · have hb : (range == 0) = false := by simp [h0]
+        simp only [hb, Bool.false_eq_true, if_false]
+        obtain ⟨k, e, hk, hf, hn⟩ := ih (range - 1) (by omega) (by omega)
+        refine ⟨k, e, by omega, hf, ?_⟩
+        intro hlt r hr'
+        by_cases hk1 : k < range - 1
+        · exact hn hk1 r hr'
+        · have : k + 1 = range := by omega
+          rw [this] at hr'
+          have : r = rf[range] := by simp [hs] at hr'; exact hr'.symm
+          subst this; exact hc
+    · simp only [hc, if_false, pure, Except.pure]
+      refine ⟨range, rfl, Nat.le_refl _, ?_, by omega⟩
+      intro r hr'
+      have : r = rf[range] := by simp [hs] at hr'; exact hr'.symm
+      subst this; omega
+
+/-- `rangeUp` ends on a range that ends at or after the cluster; if it moved, the cluster lies after the
+    previous range. -/
+theorem rangeUp_spec {rf : Array Range} {hi : Nat} (ht : Tiles rf hi) (c : Nat) (hc : c ≤ hi) :
+    ∀ (fuel range : Nat), range + fuel + 1 ≥ rf.size → range < rf.size →
+      ∃ k, rangeUp rf c fuel range = .ok k ∧ range ≤ k ∧ k < rf.size ∧ (∀ r, rf[k]? = some r → c ≤ r.last) ∧
+        (range < k → ∀ r, rf[k - 1]? = some r → r.last < c) := by
+  intro fuel
+  induction fuel with
+  | zero =>
+    intro range hr hs
+    have hlast : range = rf.size - 1 := by omega
+    have hl := ht.lastHi rf[range] (by rw [← hlast]; simp [hs])
+    refine ⟨range, ?_, Nat.le_refl _, hs, ?_, by omega⟩
+    · have : ¬ c > rf[range].last := by omega
+      simp [rangeUp, rdR_ok hs, bind, Except.bind, this, pure, Except.pure]
+    · intro r hr'
+      have : r = rf[range] := by simp [hs] at hr'; exact hr'.symm
+      subst this; omega
+  | succ fuel ih =>
+    intro range hr hs
+    simp only [rangeUp, rdR_ok hs, bind, Except.bind]
+    by_cases hgt : c > rf[range].last
+    · simp only [hgt, if_true]
+      have hs1 : range + 1 < rf.size := by
+        by_cases h : range + 1 < rf.size
+        · exact h
+        · have hlast : range = rf.size - 1 := by omega
+          have hl := ht.lastHi rf[range] (by rw [← hlast]; simp [hs])
+          omega
+      obtain ⟨k, e, hk, hks, hf, hn⟩ := ih (range + 1) (by omega) hs1
+      refine ⟨k, e, by omega, hks, hf, ?_⟩
+      intro _ r hr'
+      by_cases hk1 : range + 1 < k
+      · exact hn hk1 r hr'
+      · have : k - 1 = range := by omega
+        rw [this] at hr'
+        have : r = rf[range] := by simp [hs] at hr'; exact hr'.symm
+        subst this; exact hgt
+    · simp only [hgt, if_false, pure, Except.pure]
+      refine ⟨range, rfl, Nat.le_refl _, hs, ?_, by omega⟩
+      intro r hr'
+      have : r = rf[range] := by simp [hs] at hr'; exact hr'.symm
+      subst this; omega
+
+/-- from any starting range, `findRange` returns the range that contains the cluster. -/
+theorem findRange_spec {rf : Array Range} {hi : Nat} (ht : Tiles rf hi) (c : Nat) (hc : c ≤ hi)
+    (lr : Nat) (hlr : lr < rf.size) :
+    ∃ k, findRange rf lr c = .ok k ∧ k < rf.size ∧ ∀ r, rf[k]? = some r → r.first ≤ c ∧ c ≤ r.last := by
+  unfold findRange
+  obtain ⟨k1, e1, hk1, hf1, hn1⟩ := rangeDown_spec ht c lr lr (Nat.le_refl _) hlr
+  obtain ⟨k2, e2, hk2, hs2, hf2, hn2⟩ := rangeUp_spec ht c hc (rf.size - k1) k1 (by omega) (by omega)
+  refine ⟨k2, by simp [e1, e2, bind, Except.bind], hs2, ?_⟩
+  intro r hr
+  refine ⟨?_, hf2 r hr⟩
+  by_cases hm : k1 < k2
+  · have hprev := hn2 hm rf[k2 - 1] (by simp)
+    have := ht.contiguous (k2 - 1) rf[k2 - 1] r (by simp) (by rw [show k2 - 1 + 1 = k2 by omega]; exact hr)
+    omega
+  · have : k2 = k1 := by omega
+    subst this; exact hf1 r hr
+
+theorem tiles_lt {rf : Array Range} {hi : Nat} (ht : Tiles rf hi) :
+    ∀ (d k : Nat) (r r' : Range), rf[k]? = some r → rf[k + 1 + d]? = some r' → r.last < r'.first := by
+  intro d
+  induction d with
+  | zero => intro k r r' h h'; have := ht.contiguous k r r' h h'; omega
+  | succ d ih =>
+    intro k r r' h h'
+    have hs : k + 1 + d < rf.size := by
+      have : k + 1 + (d + 1) < rf.size := by
+        by_cases hlt : k + 1 + (d + 1) < rf.size
+        · exact hlt
+        · simp [Array.getElem?_eq_none (by omega : rf.size ≤ k + 1 + (d + 1))] at h'
+      omega
+    have hm : rf[k + 1 + d]? = some rf[k + 1 + d] := by simp [hs]
+    have h1 := ih k r rf[k + 1 + d] h hm
+    have h2 := ht.contiguous (k + 1 + d) _ r' hm h'
+    have h3 := ht.ordered _ _ hm
+    omega
+
+/-- the range that contains a cluster is unique -/
+theorem tiles_unique {rf : Array Range} {hi : Nat} (ht : Tiles rf hi) (c k k' : Nat) (r r' : Range)
+    (h : rf[k]? = some r) (h' : rf[k']? = some r') (hc : r.first ≤ c ∧ c ≤ r.last)
+    (hc' : r'.first ≤ c ∧ c ≤ r'.last) : k = k' := by
+  rcases Nat.lt_trichotomy k k' with hlt | heq | hgt
+  · have := tiles_lt ht (k' - k - 1) k r r' h (by rw [show k + 1 + (k' - k - 1) = k' by omega]; exact h')
+    omega
+  · exact heq
+  · have := tiles_lt ht (k - k' - 1) k' r' r h' (by rw [show k' + 1 + (k - k' - 1) = k by omega]; exact h)
+    omega
+
+/-- "the range of this cluster switches the subtable on" -/
+def enabledAt (rf : Array Range) (sf c : Nat) : Bool :=
+  rf.any (fun r => decide (r.first ≤ c) && decide (c ≤ r.last) && (r.flags &&& sf != 0))
+
+theorem enabledAt_eq {rf : Array Range} {hi : Nat} (ht : Tiles rf hi) (sf c k : Nat) (r : Range)
+    (h : rf[k]? = some r) (hc : r.first ≤ c ∧ c ≤ r.last) :
+    enabledAt rf sf c = (r.flags &&& sf != 0) := by
+  unfold enabledAt
+  by_cases hf : (r.flags &&& sf != 0) = true
+  · rw [hf, Array.any_eq_true]
+    have hk : k < rf.size := by
+      by_cases hlt : k < rf.size
+      · exact hlt
+      · simp [Array.getElem?_eq_none (by omega : rf.size ≤ k)] at h
+    refine ⟨k, hk, ?_⟩
+    have : rf[k] = r := by simp [hk] at h; exact h
+    simp [this, hc.1, hc.2, hf]
+  · have hf' : (r.flags &&& sf != 0) = false := by simpa using hf
+    rw [hf', Array.any_eq_false]
+    intro k' hk'
+    by_cases hcc : rf[k'].first ≤ c ∧ c ≤ rf[k'].last
+    · have := tiles_unique ht c k k' r rf[k'] h (by simp [hk']) hc hcc
+      subst this
+      have : rf[k] = r := by simp [hk'] at h; exact h
+      simp [this, hf']
+    · intro h1
+      simp only [Bool.and_eq_true, decide_eq_true_eq] at h1
+      exact hcc ⟨h1.1.1, h1.1.2⟩
+
+/-- what the non-contextual subtable does to one record -/
+def ncMap (lk : Lookup) (on : Bool) (g : G) : G :=
+  if on then { g with gid := (lk (glyph16 g.gid)).getD g.gid } else g
+
+theorem nc_loop_ranges (lk : Lookup) (rf : Array Range) (sf hi : Nat) (b : Buf) (ht : Tiles rf hi)
+    (hcl : ∀ (i : Nat) (g : G), i < b.len → b.info[i]? = some g → g.cl ≤ hi) :
+    ∀ n, n ≤ b.len → n ≤ b.info.size → ∀ lr0, lr0 < rf.size →
+      ∃ info' lr, forUp n (ncStep lk rf sf) (b, some lr0) = .ok ({ b with info := info' }, some lr) ∧
+        lr < rf.size ∧ info'.size = b.info.size ∧
+        ∀ i, info'[i]? = if i < n then (b.info[i]?).map (fun g => ncMap lk (enabledAt rf sf g.cl) g)
+                         else b.info[i]? := by
+  intro n
+  induction n with
+  | zero => intro _ _ lr0 h0; exact ⟨b.info, lr0, rfl, h0, rfl, by intro i; simp⟩
+  | succ n ih =>
+    intro hn hsz lr0 h0
+    obtain ⟨info1, lr1, e1, hl1, s1, k1⟩ := ih (by omega) (by omega) lr0 h0
+    have hlt : n < info1.size := by omega
+    have hltb : n < b.info.size := by omega
+    have hg : info1[n]? = b.info[n]? := by rw [k1, if_neg (by omega)]
+    have hg2 : b.info[n]? = some (b.info[n]'hltb) := by simp
+    have hrd : rd info1 n = .ok (b.info[n]'hltb) := by
+      rw [rd_ok hlt]; congr 1
+      have : some info1[n] = some (b.info[n]'hltb) := by rw [← hg2, ← hg]; simp [hlt]
+      exact Option.some.inj this
+    have hc := hcl n _ (by omega) hg2
+    obtain ⟨k, ek, hk, hkc⟩ := findRange_spec ht (b.info[n]'hltb).cl hc lr1 hl1
+    have hen := enabledAt_eq ht sf (b.info[n]'hltb).cl k rf[k] (by simp [hk]) (hkc rf[k] (by simp [hk]))
+    simp only [forUp, e1, bind, Except.bind, ncStep, ncRange, hrd, ek, rdR_ok hk, pure, Except.pure]
+    by_cases hoff : (rf[k].flags &&& sf == 0) = true
+    · -- switched off: nothing happens
+      have hen' : enabledAt rf sf (b.info[n]'hltb).cl = false := by
+        rw [hen]; simp only [bne, hoff, Bool.not_true]
+      simp only [hoff, if_true]
+      refine ⟨info1, k, rfl, hk, s1, ?_⟩
+      intro i; rw [k1]
+      by_cases h : i < n
+      · rw [if_pos h, if_pos (by omega)]
+      · by_cases h2 : i = n
+        · subst h2; rw [if_neg h, if_pos (by omega), hg2]; simp [ncMap, hen']
+        · rw [if_neg h, if_neg (by omega)]
+    · have hen' : enabledAt rf sf (b.info[n]'hltb).cl = true := by
+        rw [hen]; simp only [bne]; simpa using hoff
+      simp only [hoff, Bool.false_eq_true, if_false]
+      cases hl : lk (glyph16 (b.info[n]'hltb).gid) with
+      | none =>
+        refine ⟨info1, k, rfl, hk, s1, ?_⟩
+        intro i; rw [k1]
+        by_cases h : i < n
+        · rw [if_pos h, if_pos (by omega)]
+        · by_cases h2 : i = n
+          · subst h2; rw [if_neg h, if_pos (by omega), hg2]; simp [ncMap, hen', hl]
+          · rw [if_neg h, if_neg (by omega)]
+      | some v =>
+        simp only [wr_ok hlt]
+        refine ⟨info1.set n { b.info[n]'hltb with gid := v } hlt, k, rfl, hk, by simp [s1], ?_⟩
+        intro i; rw [Array.getElem?_set]
+        by_cases h2 : n = i
+        · subst h2; rw [if_pos rfl, if_pos (by omega), hg2]; simp [ncMap, hen', hl]
+        · rw [if_neg h2, k1]
+          by_cases h : i < n
+          · rw [if_pos h, if_pos (by omega)]
+          · rw [if_neg h, if_neg (by omega)]
+
 end
 end RbModel.Morx
+
+/-! ## the insertion block as a list insertion (on the shared buffer model, from Lemmas/BufZipper.lean) -/
+
+namespace RbModel.Buf
+open RbModel.Mem
+
+theorem inv_unsucc {b : Buf} (h : Inv b) : Inv { b with successful := false } :=
+  ⟨h.idx_le, h.len_le, h.out_len, h.sep_ok, h.nosep_ok, h.have_out⟩
+
+theorem seq_unsucc (b : Buf) (q : Nat) : seq { b with successful := false } q = seq b q := rfl
+
+/-- the record `output_glyph` copies: the current glyph, or at the end of input the last output glyph -/
+def srcOf (b : Buf) : Option Info := if b.idx < b.len then b.info[b.idx]? else b.outArr[b.outLen - 1]?
+
+/-- `output_glyph g` on a non-empty in/out buffer, with the failure case spelled out (the buffer is only marked
+    unsuccessful). -/
+theorem outputGlyph_spec2 (b : Buf) (g : Nat) (hinv : Inv b) (hne : 0 < total b)
+    (hg : Gen.Buf.ensureGrowOnly = true) :
+    ∃ b', b.outputGlyph g = .ok b' ∧ Inv b' ∧ b'.idx = b.idx ∧ b'.len = b.len ∧
+      (b' = { b with successful := false } ∨
+       (b'.outLen = b.outLen + 1 ∧ b'.successful = b.successful ∧
+        ∃ x, srcOf b = some x ∧
+          ∀ q, seq b' q = if q < b.outLen then seq b q else if q = b.outLen then some { x with gid := g }
+                          else seq b (q - 1))) := by
+  have hlen := hinv.len_le
+  have hidx := hinv.idx_le
+  unfold total at hne
+  unfold outputGlyph
+  rcases insert_spec b hinv hg with hfail | ⟨b1, hok, ho, hi, hl, hsu, hsq, hinf, hout, hx⟩
+  · simp only [bind, Except.bind, hfail, Bool.not_false, if_true, pure, Except.pure]
+    exact ⟨_, rfl, inv_unsucc hinv, rfl, rfl, Or.inl rfl⟩
+  · simp only [bind, Except.bind, hok, Bool.not_true, Bool.false_eq_true, if_false, pure, Except.pure]
+    have hempty : (b1.idx == b1.len && b1.outLen == 0) = false := by
+      rw [hi, hl, ho]
+      by_cases h : b.idx = b.len
+      · have : b.outLen ≠ 0 := by omega
+        simp [h, this]
+      · simp [h]
+    simp only [hempty, Bool.false_eq_true, if_false]
+    by_cases hcur : b1.idx < b1.len
+    · have hcur' : b.idx < b.len := by rw [hi, hl] at hcur; exact hcur
+      have hxx : b.info[b.idx]? = some b.info[b.idx] := List.getElem?_eq_getElem (by omega)
+      have hget : get b1.info b1.idx = .ok b.info[b.idx] := by
+        unfold get; rw [hi, hinf b.idx (by omega), hxx]; rfl
+      obtain ⟨I, O, hset, hinv2, hseq2⟩ := hx { b.info[b.idx] with gid := g }
+      simp only [hcur, if_true, hget, hset]
+      rw [ho]
+      refine ⟨_, rfl, hinv2, hi, hl, Or.inr ⟨rfl, hsu, b.info[b.idx], ?_, hseq2⟩⟩
+      simp only [srcOf, hcur', if_true]; exact hxx
+    · have hcur' : ¬ b.idx < b.len := by rw [hi, hl] at hcur; exact hcur
+      have hne0 : b.outLen ≠ 0 := by omega
+      have hne1 : ¬ b1.outLen = 0 := by rw [ho]; exact hne0
+      have hpos : b.outLen - 1 < b.outArr.length := by
+        cases hsb : b.sepOut with
+        | true => have := hinv.sep_ok hsb; simp [outArr, hsb]; omega
+        | false => have := hinv.nosep_ok hsb; simp [outArr, hsb]; omega
+      have hxx : b.outArr[b.outLen - 1]? = some b.outArr[b.outLen - 1] := List.getElem?_eq_getElem hpos
+      have hget : get b1.outArr (b1.outLen - 1) = .ok b.outArr[b.outLen - 1] := by
+        unfold get; rw [ho, hout (b.outLen - 1) (by omega), hxx]; rfl
+      obtain ⟨I, O, hset, hinv2, hseq2⟩ := hx { b.outArr[b.outLen - 1] with gid := g }
+      simp only [hcur, if_false, hne1, hget, hset]
+      rw [ho]
+      refine ⟨_, rfl, hinv2, hi, hl, Or.inr ⟨rfl, hsu, b.outArr[b.outLen - 1], ?_, hseq2⟩⟩
+      simp only [srcOf, hcur', if_false]; exact hxx
+
+open RbModel.Morx in
+/-- the logical sequence after `c` glyphs of the insertion list were put in at the output cursor `o` -/
+def insertedSeq (b : Buf) (glyphs : Nat → Option Nat) (start c : Nat) (x : Info) (q : Nat) : Option Info :=
+  if q < b.outLen then seq b q
+  else if q < b.outLen + c then (glyphs (start + (q - b.outLen))).map (fun g => { x with gid := g })
+  else seq b (q - c)
+
+open RbModel.Morx in
+theorem insertGlyphs_spec (glyphs : Nat → Option Nat) (start : Nat) (hg : Gen.Buf.ensureGrowOnly = true) :
+    ∀ (c : Nat) (b : Buf) (x : Info), Inv b → 0 < total b → srcOf b = some x →
+      (∀ k, k < c → (glyphs (start + k)).isSome = true) →
+      ∃ b', InsS.insertGlyphs glyphs start c b = .ok (b', true) ∧ Inv b' ∧ b'.idx = b.idx ∧ b'.len = b.len ∧
+        b.outLen ≤ b'.outLen ∧
+        (b'.successful = false ∨
+         (b'.outLen = b.outLen + c ∧ b'.successful = b.successful ∧
+          ∀ q, seq b' q = insertedSeq b glyphs start c x q)) := by
+  intro c
+  induction c with
+  | zero =>
+    intro b x hinv _ _ _
+    refine ⟨b, rfl, hinv, rfl, rfl, Nat.le_refl _, Or.inr ⟨rfl, rfl, ?_⟩⟩
+    intro q; unfold insertedSeq
+    by_cases h : q < b.outLen
+    · simp [h]
+    · simp [h]
+  | succ c ih =>
+    intro b x hinv hne hsrc hgl
+    obtain ⟨b1, e1, hinv1, hi1, hl1, hmono1, hres1⟩ := ih b x hinv hne hsrc (fun k hk => hgl k (by omega))
+    obtain ⟨g, hgc⟩ := Option.isSome_iff_exists.mp (hgl c (by omega))
+    have hne1 : 0 < total b1 := by unfold total at *; rw [hi1, hl1]; omega
+    obtain ⟨b2, e2, hinv2, hi2, hl2, hres2⟩ := outputGlyph_spec2 b1 g hinv1 hne1 hg
+    refine ⟨b2, ?_, hinv2, by rw [hi2, hi1], by rw [hl2, hl1], ?_, ?_⟩
+    · simp only [InsS.insertGlyphs, e1, bind, Except.bind, Bool.not_true, Bool.false_eq_true, if_false, hgc, e2,
+        pure, Except.pure]
+    · rcases hres2 with h | ⟨h, _⟩
+      · rw [h]; exact hmono1
+      · omega
+    · rcases hres1 with hf | ⟨ho1, hs1, hq1⟩
+      · left
+        rcases hres2 with h | ⟨_, h, _⟩
+        · rw [h]
+        · rw [h]; exact hf
+      · rcases hres2 with h | ⟨ho2, hs2, x1, hx1, hq2⟩
+        · left; rw [h]
+        · right
+          refine ⟨by omega, by rw [hs2, hs1], ?_⟩
+          -- the copied record has the cluster (mask, payload) of `x`
+          have hx : ({ x1 with gid := g } : Info) = { x with gid := g } := by
+            unfold srcOf at hx1 hsrc
+            by_cases hcur : b.idx < b.len
+            · have hcur1 : b1.idx < b1.len := by rw [hi1, hl1]; exact hcur
+              simp only [hcur, if_true] at hsrc
+              simp only [hcur1, if_true] at hx1
+              have h1 := seq_at_outLen b1 hcur1
+              rw [hq1, ho1] at h1
+              unfold insertedSeq at h1
+              simp only [Nat.lt_irrefl, if_false, Nat.add_sub_cancel, show ¬ b.outLen + c < b.outLen by omega] at h1
+              rw [seq_at_outLen b hcur, hsrc, hx1] at h1
+              cases h1; rfl
+            · have hcur1 : ¬ b1.idx < b1.len := by rw [hi1, hl1]; exact hcur
+              simp only [hcur, if_false] at hsrc
+              simp only [hcur1, if_false] at hx1
+              have hpos : 0 < b.outLen := by unfold total at hne; omega
+              have h1 : seq b1 (b1.outLen - 1) = b1.outArr[b1.outLen - 1]? := by
+                simp only [seq, show b1.outLen - 1 < b1.outLen by omega, if_true]
+              rw [hq1, hx1, ho1] at h1
+              unfold insertedSeq at h1
+              by_cases hc0 : c = 0
+              · subst hc0
+                simp only [Nat.add_zero, show b.outLen - 1 < b.outLen by omega, if_true] at h1
+                simp only [seq, show b.outLen - 1 < b.outLen by omega, if_true] at h1
+                rw [hsrc] at h1; cases h1; rfl
+              · simp only [show ¬ b.outLen + c - 1 < b.outLen by omega, if_false,
+                  show b.outLen + c - 1 < b.outLen + c by omega, if_true] at h1
+                obtain ⟨g', hg'⟩ := Option.isSome_iff_exists.mp (hgl (b.outLen + c - 1 - b.outLen) (by omega))
+                rw [hg'] at h1
+                simp only [Option.map_some] at h1
+                cases h1; rfl
+          intro q
+          rw [hq2, hx]
+          unfold insertedSeq
+          rw [ho1]
+          by_cases c1 : q < b.outLen
+          · rw [if_pos (by omega), hq1]; unfold insertedSeq; simp only [c1, if_true]
+          · by_cases c2 : q < b.outLen + c
+            · rw [if_pos c2, hq1]; unfold insertedSeq
+              simp only [c1, if_false, c2, if_true, show q < b.outLen + (c + 1) by omega]
+            · by_cases c3 : q = b.outLen + c
+              · subst c3
+                simp only [Nat.lt_irrefl, if_false, if_true, c1, show b.outLen + c < b.outLen + (c + 1) by omega,
+                  Nat.add_sub_cancel_left, hgc, Option.map_some]
+              · rw [if_neg c2, if_neg c3, hq1]; unfold insertedSeq
+                simp only [show ¬ q - 1 < b.outLen by omega, show ¬ q - 1 < b.outLen + c by omega, if_false, c1,
+                  show ¬ q < b.outLen + (c + 1) by omega]
+                congr 1; omega
+
+theorem srcOf_some (b : Buf) (hinv : Inv b) (hne : 0 < total b) : ∃ x, srcOf b = some x := by
+  have hidx := hinv.idx_le
+  unfold srcOf total at *
+  by_cases hcur : b.idx < b.len
+  · simp only [hcur, if_true]
+    exact ⟨b.info[b.idx]'(by have := hinv.len_le; omega), List.getElem?_eq_getElem _⟩
+  · simp only [hcur, if_false]
+    have hpos : b.outLen - 1 < b.outArr.length := by
+      cases hsb : b.sepOut with
+      | true => have := hinv.sep_ok hsb; simp [outArr, hsb]; omega
+      | false => have := hinv.nosep_ok hsb; have := hinv.len_le; simp [outArr, hsb]; omega
+    exact ⟨b.outArr[b.outLen - 1], List.getElem?_eq_getElem hpos⟩
+
+theorem moveTo_unsucc (b : Buf) (i : Nat) (hinv : Inv b) (hs : b.successful = false) :
+    b.moveTo i = .ok (b, false) := by
+  unfold moveTo
+  simp [hinv.have_out, hs, pure, Except.pure]
+
+/-- the logical sequence of `b` with `c` glyphs of the insertion list put in at position `pos`, each a copy of
+    record `x` with its glyph id replaced -/
+def insertedAt (b : Buf) (pos : Nat) (glyphs : Nat → Option Nat) (start c : Nat) (x : Info) (q : Nat) : Option Info :=
+  if q < pos then seq b q
+  else if q < pos + c then (glyphs (start + (q - pos))).map (fun g => { x with gid := g })
+  else seq b (q - c)
+
+open RbModel.Morx in
+/-- **the current-insertion block is a list insertion.** On an in/out buffer (`Inv`), with every glyph of the
+    list present: either an allocation was refused (the buffer ends up marked unsuccessful), or the logical
+    glyph sequence is the old one with the `c` glyphs inserted before the current glyph (`before`, or at the end
+    of the text) or after it, each inheriting the record of the current glyph (of the last output glyph at the
+    end of the text); the output cursor is left at the old position (DONT_ADVANCE) or after the inserted glyphs;
+    nothing is lost or duplicated (`total` grows by `c`). No panic in either case. -/
+theorem insCurrentBody_zipper (glyphs : Nat → Option Nat) (start c : Nat) (before dontAdvance : Bool) (b : Buf)
+    (hinv : Inv b) (hne : 0 < total b)
+    (hgl : ∀ k, k < c → (glyphs (start + k)).isSome = true)
+    (hg : Gen.Buf.ensureGrowOnly = true) (hr : Gen.Buf.moveToRewindReversed = true) :
+    ∃ b' x, srcOf b = some x ∧ InsS.insCurrentBody glyphs start c before dontAdvance b = .ok b' ∧
+      (b'.successful = false ∨
+       (Inv b' ∧ b'.successful = b.successful ∧ total b' = total b + c ∧
+        b'.outLen = (if dontAdvance then b.outLen else b.outLen + c) ∧
+        ∀ q, seq b' q =
+          insertedAt b (if b.idx < b.len ∧ before = false then b.outLen + 1 else b.outLen) glyphs start c x q)) := by
+  obtain ⟨x, hx⟩ := srcOf_some b hinv hne
+  have hidx := hinv.idx_le
+  unfold InsS.insCurrentBody InsS.insBlock
+  by_cases hafter : (decide (b.idx < b.len) && !before) = true
+  · -- insert after the current glyph: copy it, insert, skip it
+    have hcur : b.idx < b.len := by simp at hafter; exact hafter.1
+    have hbef : before = false := by simp at hafter; exact hafter.2
+    have hxi : b.info[b.idx]? = some x := by simpa [srcOf, hcur] using hx
+    obtain ⟨b1, e1, hres1⟩ := copyGlyph_spec b hinv hcur hg
+    -- facts about b1 valid in both outcomes
+    have h1 : Inv b1 ∧ b1.idx = b.idx ∧ b1.len = b.len ∧ b.outLen ≤ b1.outLen ∧ srcOf b1 = some x := by
+      rcases hres1 with h | ⟨hi, ho, hix, hl, _, hq⟩
+      · subst h; exact ⟨inv_unsucc hinv, rfl, rfl, Nat.le_refl _, hx⟩
+      · refine ⟨hi, hix, hl, by omega, ?_⟩
+        have hc1 : b1.idx < b1.len := by rw [hix, hl]; exact hcur
+        have := seq_at_outLen b1 hc1
+        rw [hq, ho] at this
+        simp only [show ¬ b.outLen + 1 < b.outLen by omega, show ¬ b.outLen + 1 = b.outLen by omega, if_false,
+          Nat.add_sub_cancel] at this
+        rw [seq_at_outLen b hcur, hxi] at this
+        simp only [srcOf, hc1, if_true]; exact this.symm
+    obtain ⟨hinv1, hi1, hl1, hmono1, hsrc1⟩ := h1
+    have hne1 : 0 < total b1 := by unfold total at *; rw [hi1, hl1]; omega
+    obtain ⟨b2, e2, hinv2, hi2, hl2, hmono2, hres2⟩ := insertGlyphs_spec glyphs start hg c b1 x hinv1 hne1 hsrc1 hgl
+    have hc2 : b2.idx < b2.len := by rw [hi2, hl2, hi1, hl1]; exact hcur
+    have hskip := skipGlyph_spec b2 hinv2 hc2 hinv2.nosep_ok
+    have hc2' : (decide (b2.idx < b2.len) && !before) = true := by simp [hc2, hbef]
+    simp only [hafter, if_true, e1, bind, Except.bind, e2, Bool.not_true, Bool.false_eq_true, if_false, hc2',
+      pure, Except.pure]
+    by_cases hs3 : b2.skipGlyph.successful = false
+    · rw [moveTo_unsucc _ _ hskip.1 hs3]
+      exact ⟨_, x, hx, rfl, Or.inl hs3⟩
+    · -- every step succeeded
+      have hs2 : b2.successful = true := by simpa [skipGlyph] using hs3
+      rcases hres1 with h | ⟨_, ho1, _, _, hsu1, hq1⟩
+      · exfalso
+        rcases hres2 with h2 | ⟨_, h2, _⟩
+        · rw [h2] at hs2; exact absurd hs2 (by simp)
+        · rw [h2, h] at hs2; exact absurd hs2 (by simp)
+      rcases hres2 with h2 | ⟨ho2, hsu2, hq2⟩
+      · rw [h2] at hs2; exact absurd hs2 (by simp)
+      have htot3 : total b2.skipGlyph = total b + c := by
+        unfold total skipGlyph; simp only; rw [ho2, ho1, hi2, hl2, hi1, hl1]; omega
+      obtain ⟨b4, r, e4, hr4f, hr4t⟩ := moveTo_spec b2.skipGlyph (if dontAdvance = true then b.outLen else b.outLen + c)
+        hskip.1 (by rw [htot3]; unfold total; split <;> omega) hg hr
+      have ho3 : b2.skipGlyph.outLen = b2.outLen := rfl
+      rw [e4]
+      cases r with
+      | false => exact ⟨_, x, hx, rfl, Or.inl (hr4f rfl)⟩
+      | true =>
+        obtain ⟨hinv4, ho4, htot4, hq4, hsu4, _⟩ := hr4t rfl
+        refine ⟨_, x, hx, rfl, Or.inr ⟨hinv4, ?_, by rw [htot4, htot3], ho4, ?_⟩⟩
+        · rw [hsu4]; show b2.successful = b.successful; rw [hsu2, hsu1]
+        · intro q
+          rw [hq4, hskip.2 q]
+          have hpos : (if b.idx < b.len ∧ before = false then b.outLen + 1 else b.outLen) = b.outLen + 1 := by
+            simp [hcur, hbef]
+          rw [hpos]
+          unfold insertedAt
+          by_cases c1 : q < b2.outLen
+          · rw [if_pos c1, hq2]; unfold insertedSeq
+            rw [ho1]
+            by_cases c2 : q < b.outLen + 1
+            · rw [if_pos c2, if_pos c2, hq1]
+              by_cases c3 : q < b.outLen
+              · rw [if_pos c3]
+              · have : q = b.outLen := by omega
+                subst this
+                rw [if_neg c3, if_pos rfl, seq_at_outLen b hcur]
+            · rw [if_neg c2, if_neg c2, if_pos (by omega), if_pos (by omega)]
+          · rw [if_neg c1, hq2]; unfold insertedSeq
+            rw [ho1]
+            rw [if_neg (by omega), if_neg (by omega), if_neg (by omega), if_neg (by omega), hq1,
+              if_neg (by omega), if_neg (by omega)]
+            congr 1; omega
+  · -- insert at the cursor (before the current glyph, or at the end of the text)
+    have hafter' : (decide (b.idx < b.len) && !before) = false := by simpa using hafter
+    obtain ⟨b2, e2, hinv2, hi2, hl2, hmono2, hres2⟩ := insertGlyphs_spec glyphs start hg c b x hinv hne hx hgl
+    have hc2' : (decide (b2.idx < b2.len) && !before) = false := by rw [hi2, hl2]; exact hafter'
+    simp only [hafter', Bool.false_eq_true, if_false, pure, Except.pure, bind, Except.bind, e2, Bool.not_true, hc2']
+    by_cases hs3 : b2.successful = false
+    · rw [moveTo_unsucc _ _ hinv2 hs3]
+      exact ⟨_, x, hx, rfl, Or.inl hs3⟩
+    · rcases hres2 with h2 | ⟨ho2, hsu2, hq2⟩
+      · exact absurd h2 hs3
+      have htot2 : total b2 = total b + c := by unfold total; rw [ho2, hi2, hl2]; omega
+      obtain ⟨b4, r, e4, hr4f, hr4t⟩ := moveTo_spec b2 (if dontAdvance = true then b.outLen else b.outLen + c)
+        hinv2 (by rw [htot2]; unfold total; split <;> omega) hg hr
+      rw [e4]
+      cases r with
+      | false => exact ⟨_, x, hx, rfl, Or.inl (hr4f rfl)⟩
+      | true =>
+        obtain ⟨hinv4, ho4, htot4, hq4, hsu4, _⟩ := hr4t rfl
+        refine ⟨_, x, hx, rfl, Or.inr ⟨hinv4, by rw [hsu4, hsu2], by rw [htot4, htot2], ho4, ?_⟩⟩
+        intro q
+        rw [hq4, hq2]
+        have hpos : (if b.idx < b.len ∧ before = false then b.outLen + 1 else b.outLen) = b.outLen := by
+          have : ¬ (b.idx < b.len ∧ before = false) := by
+            intro h; simp [h.1, h.2] at hafter'
+          simp [this]
+        rw [hpos]; rfl
+end RbModel.Buf
